@@ -60,3 +60,40 @@ func Keys(m map[string]string) []string {
 	}
 	return append(append([]string{}, keys[c:]...), keys[:c]...)
 }
+
+// KeysOf is Keys for any map with an ordered key type (general map-iteration seam).
+func KeysOf[K interface {
+	~int | ~int8 | ~int16 | ~int32 | ~int64 | ~uint | ~uint8 | ~uint16 | ~uint32 | ~uint64 | ~uintptr | ~float32 | ~float64 | ~string
+}, V any](m map[K]V) []K {
+	keys := make([]K, 0, len(m))
+	for k := range m {
+		keys = append(keys, k)
+	}
+	sort.Slice(keys, func(i, j int) bool { return keys[i] < keys[j] })
+	n := len(keys)
+	if n >= 2 {
+		Calls++
+	}
+	c := Choice % NumOrders(n)
+	if c == 0 || n <= 1 {
+		return keys
+	}
+	if n <= 3 {
+		perms := [][]int{{0, 1, 2}, {0, 2, 1}, {1, 0, 2}, {1, 2, 0}, {2, 0, 1}, {2, 1, 0}}
+		if n == 2 {
+			perms = [][]int{{0, 1}, {1, 0}}
+		}
+		out := make([]K, n)
+		for i, j := range perms[c] {
+			out[i] = keys[j]
+		}
+		return out
+	}
+	if c >= n {
+		for i, j := 0, n-1; i < j; i, j = i+1, j-1 {
+			keys[i], keys[j] = keys[j], keys[i]
+		}
+		c -= n
+	}
+	return append(append([]K{}, keys[c:]...), keys[:c]...)
+}
